@@ -11,7 +11,7 @@
    find_region meeting find_ok under an invariant implying wf_layout_gen: regions may end exactly
    at 2^64, sit at 0, be in any order), any number and size of regions, any address, any buffer,
    both build profiles (mode m).  Every "= Val ..." also says: no panic, and the loop fuel
-   (number of regions + 1; + 2 for a short in-memory source) is never exhausted. *)
+   (number of regions + 1; regions + source length + 2 for a source that may answer short) is never exhausted. *)
 From VM Require Import Prelude.MachInt Prelude.Outcome Impl.Address Impl.Guest Spec.C03 Suite.C03 Proofs.C02 Proofs.C03.
 
 (* writing a non-empty buffer stores, in order, exactly the first k bytes on the run starting at
@@ -122,13 +122,14 @@ Theorem C03_atomic_load : forall (find : layout -> N -> option nat) (inv : layou
                             (e = EInvalidGuestAddress \/ e = EInvalidBackendAddress)).
 Proof. exact gm_load_lemma. Qed.
 
-(* stream transfers with in-memory streams: from a byte slice into guest memory (the run is
-   additionally capped by the source length; the source advances by k) ... *)
+(* stream transfers with in-memory streams: from a byte source that hands out at most chunk >= 1
+   bytes per call (&[u8]: unbounded chunk; short reads otherwise) into guest memory - whatever the
+   chunking, the run is only additionally capped by the source length and the source advances by k *)
 Theorem C03_read_volatile_from_refines_flat : forall (find : layout -> N -> option nat) (inv : layout -> Prop),
   (forall L, inv L -> wf_layout_gen L) ->
   (forall L a, inv L -> a < W64 -> find_ok L a (find L a)) ->
-  forall m M addr src count, inv (shape M) -> count < W64 -> addr < W64 -> lenN src < W64 ->
-  exists M' k, gm_read_volatile_from find m M addr src count =
+  forall m M addr chunk src count, inv (shape M) -> count < W64 -> addr < W64 -> lenN src < W64 -> 0 < chunk ->
+  exists M' k, gm_read_volatile_from find m M addr chunk src count =
                Val ((M', skipn (N.to_nat k) src), stream_result find (shape M) addr k) /\
     is_run (shape M) addr (N.min count (lenN src)) k /\ shape M' = shape M /\
     forall x, x < W64 -> rd M' x = if in_range addr k x then nth_error src (N.to_nat (x - addr)) else rd M x.
